@@ -94,13 +94,14 @@ type Stmt struct {
 	Branches []Branch `json:"br,omitempty"`   // if: first is @if, rest @elseif
 	Else     []*Stmt  `json:"else,omitempty"`
 	HasElse  bool     `json:"has_else,omitempty"`
-	Body     []*Stmt  `json:"body,omitempty"`  // each/for body, code statements, insert block
-	Block    bool     `json:"block,omitempty"` // insert: block form
-	Init     *Expr    `json:"init,omitempty"`  // for: initial value of Name (nil = absent clause)
-	Cond     *Expr    `json:"fcond,omitempty"` // for: condition (nil = absent)
-	Post     *Expr    `json:"post,omitempty"`  // for: post expression (nil = absent)
-	Arg      *Expr    `json:"arg,omitempty"`   // component argument (object literal)
-	Slots    []*Stmt  `json:"slots,omitempty"` // component: slots passed (Kind slot, Name, Body)
+	Body     []*Stmt  `json:"body,omitempty"`      // each/for body, code statements, insert block
+	Block    bool     `json:"block,omitempty"`     // insert: block form
+	Init     *Expr    `json:"init,omitempty"`      // for: initial value of Name (nil = absent clause)
+	Cond     *Expr    `json:"fcond,omitempty"`     // for: condition (nil = absent)
+	Post     *Expr    `json:"post,omitempty"`      // for: post expression (nil = absent)
+	PostName string   `json:"post_name,omitempty"` // for: the post clause is the assignment PostName = Post
+	Arg      *Expr    `json:"arg,omitempty"`       // component argument (object literal)
+	Slots    []*Stmt  `json:"slots,omitempty"`     // component: slots passed (Kind slot, Name, Body)
 }
 
 func Text(s string) *Stmt            { return &Stmt{Kind: SText, Text: s} }
